@@ -5,7 +5,7 @@ from .facts import Body, op_local, op_const
 from .callgraph import callgraph
 
 PANIC_CALL = re.compile(
-    r"^core::panicking::|^std::rt::begin_panic|^std::panicking::|^core::option::expect_failed|"
+    r"^core::panicking::|^std::rt::begin_panic|^std::rt::panic_fmt$|^std::rt::panic_display|^std::panicking::|^core::option::expect_failed|"
     r"^core::result::unwrap_failed|^std::process::(abort|exit)$")
 UNWRAP = re.compile(
     r"^std::option::Option::<T>::(unwrap|expect)$|"
